@@ -8,6 +8,8 @@ package c09
 
 import (
 	"github.com/cosmos/cosmos-sdk/codec"
+	"github.com/ethereum/go-ethereum/common"
+	"verif/harness/envseam"
 
 	"encoding/json"
 
@@ -90,7 +92,10 @@ type Variant struct {
 	// Deploy: governance may register an ERC20 contract for an asset that arrived over IBC and has no token record
 	// yet (min unit "ibc/aa"): that creates a token record under the symbol the message names - a symbol that
 	// differs from an issued token's only in its case is another symbol.
-	Deploy          bool
+	Deploy bool
+	// Convert: an issued token may be bound to an ERC20 contract by governance and converted back and forth by its
+	// holders; conversions are no burns (the tally must not move) and change the native circulating amount exactly
+	Convert         bool
 	Quick, Thorough int
 }
 
@@ -115,6 +120,9 @@ type model struct {
 	// identityBroken: an issue re-using a symbol or min unit was accepted (reported at that step). Two tokens
 	// now share a name, the reference model has no meaning any more: the state is terminal and not judged again.
 	identityBroken bool
+	// bound / erc: tokens with an ERC20 contract, and the amount converted into it (variant Convert)
+	bound map[string]bool
+	erc   map[string]*big.Int
 }
 
 func (m *model) Clone() mc.Model {
@@ -127,6 +135,15 @@ func (m *model) Clone() mc.Model {
 	}
 	for k, v := range m.burned {
 		c.burned[k] = new(big.Int).Set(v)
+	}
+	if m.bound != nil {
+		c.bound, c.erc = map[string]bool{}, map[string]*big.Int{}
+		for k, v := range m.bound {
+			c.bound[k] = v
+		}
+		for k, v := range m.erc {
+			c.erc[k] = new(big.Int).Set(v)
+		}
 	}
 	return c
 }
@@ -150,6 +167,9 @@ func (m *model) Canon() []byte {
 		fmt.Fprintf(&b, "b:%s=%s;", k, m.burned[k])
 	}
 	fmt.Fprintf(&b, "ev=%v;idb=%v", m.evolved, m.identityBroken)
+	for _, k := range sortedKeys(m.bound) {
+		fmt.Fprintf(&b, ";erc:%s=%s", k, m.erc[k])
+	}
 	return b.Bytes()
 }
 
@@ -209,7 +229,16 @@ func New(v Variant) func() (*mc.Env, mc.Driver) {
 				},
 			}
 		}
+		var evm *envseam.EVM
+		if v.Convert {
+			// the contract side lives in a store of the same multistore (it branches and rolls back with the search)
+			evm = &envseam.EVM{}
+			opts.EVM = evm
+		}
 		e := mc.NewEnv(opts)
+		if evm != nil {
+			evm.Key = e.StoreKey("evidence")
+		}
 		d := &Driver{V: v, tax: rat("0.4"), ratio: rat("0.1"), base: big.NewInt(60000)}
 		if v.Tax != "" {
 			d.tax, d.ratio, d.base = rat(v.Tax), rat(v.MintRatio), big.NewInt(v.BaseFee)
@@ -218,8 +247,13 @@ func New(v Variant) func() (*mc.Env, mc.Driver) {
 	}
 }
 
-func (d *Driver) ID() string       { return "C09/" + d.V.Name }
-func (d *Driver) Stores() []string { return []string{"token", "bank"} }
+func (d *Driver) ID() string { return "C09/" + d.V.Name }
+func (d *Driver) Stores() []string {
+	if d.V.Convert {
+		return []string{"token", "bank", "evidence"}
+	}
+	return []string{"token", "bank"}
+}
 
 func (d *Driver) Init(e *mc.Env) *mc.State {
 	s := &mc.State{Ctx: mc.Branch(e.Root), Model: &model{toks: map[string]*tok{}, burned: map[string]*big.Int{}}}
@@ -235,7 +269,7 @@ func (d *Driver) Init(e *mc.Env) *mc.State {
 			panic("fixture: update params failed: " + out.String())
 		}
 	}
-	if d.V.Deploy {
+	if d.V.Deploy || d.V.Convert {
 		p := e.Token.GetParams(s.Ctx)
 		p.EnableErc20 = true
 		p.Beacon = "0x00000000000000000000000000000000000000be"
@@ -291,6 +325,23 @@ func (d *Driver) Enabled(e *mc.Env, s *mc.State) []mc.Op {
 	if d.V.Deploy && !m.hasUnit(ibcUnit) {
 		for _, sym := range []string{"ibcx", "tka", "tKa", "tkAA"} {
 			ops = append(ops, mc.Op{Name: fmt.Sprintf("gov:deploy-erc20(%s,symbol=%s)", ibcUnit, sym), Data: opData{kind: "deploy", sym: sym}})
+		}
+	}
+	if d.V.Convert {
+		for _, sym := range sortedKeys(m.toks) {
+			t := m.toks[sym]
+			if !m.bound[sym] {
+				ops = append(ops, mc.Op{Name: fmt.Sprintf("gov:bind-erc20(%s)", sym), Data: opData{kind: "bind", sym: sym}})
+				continue
+			}
+			for _, a := range actors {
+				if e.Bal(s.Ctx, mc.Addr(a), t.MinUnit).IsPositive() {
+					ops = append(ops, mc.Op{Name: fmt.Sprintf("to-erc20(%s,%s,1)", sym, a), Data: opData{kind: "to-erc20", sym: sym, actor: a}})
+				}
+			}
+			if m.erc[sym] != nil && m.erc[sym].Sign() > 0 {
+				ops = append(ops, mc.Op{Name: fmt.Sprintf("from-erc20(%s,1)", sym), Data: opData{kind: "from-erc20", sym: sym}})
+			}
 		}
 	}
 	for _, sym := range sortedKeys(m.toks) {
@@ -571,6 +622,34 @@ func (d *Driver) Apply(e *mc.Env, s *mc.State, op mc.Op) []mc.Finding {
 		}
 		return fs
 
+	case "bind":
+		t := m.toks[od.sym]
+		out := s.Deliver(e, op.Name, &v1.MsgDeployERC20{Symbol: t.Symbol, Name: t.Name, Scale: t.Scale, MinUnit: t.MinUnit, Authority: mc.Authority().String()})
+		if out.OK {
+			if m.bound == nil {
+				m.bound, m.erc = map[string]bool{}, map[string]*big.Int{}
+			}
+			m.bound[od.sym], m.erc[od.sym] = true, new(big.Int)
+		}
+		return nil
+	case "to-erc20", "from-erc20":
+		// a conversion is no burn: the tally stays, the native circulating amount moves by exactly the amount.
+		// All converted units are held by one contract-side account (A's), whoever converted them.
+		t := m.toks[od.sym]
+		one := sdk.NewCoin(t.MinUnit, sdkmath.OneInt())
+		holder := common.BytesToAddress(mc.Addr("A").Bytes())
+		if od.kind == "to-erc20" {
+			if out := s.Deliver(e, op.Name, &v1.MsgSwapToERC20{Amount: one, Sender: addrOf(od.actor), Receiver: holder.Hex()}); out.OK {
+				t.Supply.Sub(t.Supply, big.NewInt(1))
+				m.erc[od.sym].Add(m.erc[od.sym], big.NewInt(1))
+			}
+			return nil
+		}
+		if out := s.Deliver(e, op.Name, &v1.MsgSwapFromERC20{WantedAmount: one, Sender: addrOf("A"), Receiver: addrOf("A")}); out.OK {
+			t.Supply.Add(t.Supply, big.NewInt(1))
+			m.erc[od.sym].Sub(m.erc[od.sym], big.NewInt(1))
+		}
+		return nil
 	case "deploy":
 		out := s.Deliver(e, op.Name, &v1.MsgDeployERC20{Symbol: od.sym, Name: "ibc asset", Scale: 6, MinUnit: ibcUnit, Authority: mc.Authority().String()})
 		if !out.OK {
